@@ -336,7 +336,7 @@ def recursion(rep):
 
 def build(rep, tier="quick", seed=0, known=None):
     listed = {k["id"]: k for k in (known or [])}
-    cs = R.contracts() + R.parser_contract() + R.operator_envelope_contracts()
+    cs = R.contracts() + R.parser_contract() + R.operator_envelope_contracts() + R.function_envelope_contracts()
     run_contracts(cs, rep, known=known)
     recursion(rep)
 
@@ -361,7 +361,8 @@ def build(rep, tier="quick", seed=0, known=None):
         add(f"parse[{f['text']!r}]", "CELParser.parse", "returns a tree or raises CELParseError with a position inside the text", f)
     rep.trusted |= {"layer 2 (the real implementations raise only their declared envelope) is discharged for every operator on all pairs of scalar kinds "
                     "(bool, int64, uint64, double, string, bytes, null) by symbolic execution of the real celtypes code, cross-checked on CPython; "
-                    "for lists, maps, timestamps, durations, types and the named functions it is the bounded grid check",
+                    "likewise for size, the string predicates and the conversions int/uint/double/string/bytes/bool/type; "
+                    "for lists, maps, timestamps, durations, types as operands and the remaining functions (matches, time accessors) it is the bounded grid check",
                     "lark's LALR front end raises only UnexpectedToken / UnexpectedCharacters (subclasses of LexError / ParseError)",
                     "repr() of the args tuple of an error does not raise"}
     return {}
